@@ -11,8 +11,9 @@ ASSUMPTIONS = [
     "truncate() is followed by sync_all() in the harness (Freezer::truncate does not sync; power loss below the OS page cache is out of scope)",
     "initial INDEX creation (the 12-byte default entry written and synced by build()) is not a crash point; the property names crashes that cut an append short",
     "item contents are a deterministic function of (item number, size); snap and std::fs are trusted",
+    "write errors are injected as real short writes followed by EFBIG (RLIMIT_FSIZE set around one append, SIGXFSZ ignored): the write of the item data or of the 12-byte index entry stops after a seeded number of bytes, also right after a roll-over opened the next data file; the process lives on, the failed append must change nothing and later appends, retrieves and re-opens must work on the unchanged prefix. Errors of sync_all, truncate and of opening files are not injected",
 ]
-REAL = ["ckb_freezer::FreezerFilesBuilder::build (repair loop)", "FreezerFiles::{append,retrieve,truncate,sync_all,preopen}", "ckb_freezer::Freezer::{open,freeze,retrieve,number} on real packed blocks", "fail crate failpoints inside append (panic = death at a call site)", "real files on tmpfs"]
+REAL = ["ckb_freezer::FreezerFilesBuilder::build (repair loop)", "FreezerFiles::{append,retrieve,truncate,sync_all,preopen}", "ckb_freezer::Freezer::{open,freeze,retrieve,number} on real packed blocks", "fail crate failpoints inside append (panic = death at a call site)", "the kernel's file-size limit as write-error source (real partial writes)", "real files on tmpfs"]
 STUB = ["the disk between drop and re-open (cut by the simulator)", "block source for Freezer::freeze (generated header chain)"]
 
 
